@@ -375,10 +375,14 @@ def plan_c13(P: Planner):
                 P.forward(bops, a, inside_block=True)
             elif k == "calib":
                 inst = weighted(r, [("fresh", 6), ("reuse", 3 if allow_reenter else 0)])
-                P.calib(bops, body, depth, inst=inst)
+                blk = P.calib(bops, body, depth, inst=inst)
+                if r.random() < 0.3:
+                    blk["catch"] = True  # the inner block is left by the exception, the outer one normally
             elif k == "noext":
                 op = P.emit(bops, {"op": "noext", "body": []})
                 body(op["body"], depth)
+                if r.random() < 0.3:
+                    op["catch"] = True
             elif k == "lib":
                 lib(bops)
             elif k == "newdep":
@@ -607,6 +611,11 @@ def h_train(P, ops, a, lr_p=0.5):
     op = {"op": "train", "dep": a.id, "input": desc, "gseed": P.S.sub("g", P.nops) % (1 << 30), "gmag": r.choice([1.0, 1.0, 0.1, 10.0])}
     if r.random() < 0.35:
         op["noncontig"] = True
+    if r.random() < 0.2:
+        d2 = P.input_desc(a, fresh=True)
+        d2.pop("q", None)
+        d2["lead"] = desc["lead"]
+        op["input2"] = d2
     if r.random() < lr_p:
         op["lr"] = r.choice([0.1, 0.5, 1.0])
     P.emit(ops, op)
@@ -771,7 +780,7 @@ def plan_c12(P):
                 if len(deps) > 1 and r.random() < 0.2:
                     P.forward(bops, r.choice(deps), fresh=True, fault=False)
 
-        op = P.calib(ops, body, 0)
+        op = P.calib(ops, body, 0, inst="reuse" if (c > 0 and r.random() < 0.25) else "fresh")
         op["momentum"] = m
         op["streamline"] = st
         op.pop("debug", None)
